@@ -451,3 +451,109 @@ package nbs
 // 20 bytes; that it never panics is assumed (regexp and base32 are outside the verified subset).
 //@ extern github.com/dolthub/dolt/go/store/hash.MaybeParse as verif_x_hash_MaybeParse
 //@   modifies nothing
+
+// ---- table writer (C06): the index written by writeIndex is the layout the reader parses
+
+//@ func verif_order_pos
+//@   pure
+//@   opaque
+
+// sort.Sort permutes the records (assumed): lengths and the set of orders are unchanged.
+//@ extern sort.Sort as verif_x_sort_Sort
+//@   requires verif_orders_ok(data.(prefixIndexSlice))
+//@   ensures len(data.(prefixIndexSlice)) == old(len(data.(prefixIndexSlice)))
+//@   ensures verif_orders_ok(data.(prefixIndexSlice))
+//@   modifies data.(prefixIndexSlice)
+
+//@ func (*tableWriter).writeIndex
+//@   property C06
+//@   nopanic
+//@   requires tw.blockHash != nil
+//@   requires len(tw.prefixes) <= 268435456 && tw.pos <= 1099511627776
+//@   requires uint64(len(tw.buff)) >= tw.pos + 28*uint64(len(tw.prefixes))
+//@   requires verif_orders_ok(tw.prefixes)
+//@   ensures  result == nil ==> tw.pos == old(tw.pos) + 28*uint64(len(tw.prefixes)) && len(tw.prefixes) == old(len(tw.prefixes))
+//@   ensures  result == nil ==> forall k in 0..len(tw.prefixes): verif_be64(tw.buff[old(tw.pos)+12*uint64(k):]) == tw.prefixes[k].addr.Prefix()
+//@   ensures  result == nil ==> forall k in 0..len(tw.prefixes): verif_be32(tw.buff[old(tw.pos)+12*uint64(k)+8:]) == tw.prefixes[k].order
+//@   ensures  result == nil ==> forall k in 0..len(tw.prefixes): verif_be32(tw.buff[old(tw.pos)+12*uint64(len(tw.prefixes))+4*uint64(tw.prefixes[k].order):]) == tw.prefixes[k].size
+//@   loop 1
+//@     invariant 0 <= rangeidx && rangeidx <= len(tw.prefixes) && numRecords == uint32(len(tw.prefixes)) && len(tw.prefixes) <= 268435456
+//@     invariant tw.pos == old(tw.pos) + 12*uint64(rangeidx) && old(tw.pos) <= 1099511627776
+//@     invariant lengthsOffset == old(tw.pos) + 12*uint64(numRecords) && suffixesOffset == old(tw.pos) + 16*uint64(numRecords)
+//@     invariant uint64(len(tw.buff)) >= old(tw.pos) + 28*uint64(len(tw.prefixes))
+//@     invariant verif_orders_ok(tw.prefixes)
+//@     invariant uses(1,2,3,4,6): forall k in 0..rangeidx: verif_be64(tw.buff[old(tw.pos)+12*uint64(k):]) == tw.prefixes[k].addr.Prefix()
+//@     invariant uses(1,2,3,4,7): forall k in 0..rangeidx: verif_be32(tw.buff[old(tw.pos)+12*uint64(k)+8:]) == tw.prefixes[k].order
+//@     invariant uses(1,2,3,4,5,8): forall k in 0..rangeidx: verif_be32(tw.buff[old(tw.pos)+12*uint64(numRecords)+4*uint64(tw.prefixes[k].order):]) == tw.prefixes[k].size
+
+// io.Writer: "Write must not modify the slice data, even temporarily" (package io documentation)
+//@ extern (io.Writer).Write as verif_x_Writer_Write
+//@   modifies nothing
+
+// encoding/binary big-endian stores, by contract (the same layout nbs.writeUint32/writeUint64 are proved to have
+// against the inlined library bodies): keeps the table-writer proof modular.
+//@ extern (encoding/binary.bigEndian).PutUint32 as verif_x_be_PutUint32
+//@   requires len(b) >= 4
+//@   ensures verif_be32(b) == v
+//@   modifies b[0:4]
+//@ extern (encoding/binary.bigEndian).PutUint64 as verif_x_be_PutUint64
+//@   requires len(b) >= 8
+//@   ensures verif_be64(b) == v
+//@   modifies b[0:8]
+
+// the two extern contracts above, checked against the library's own code (inlined from its SSA)
+//@ lemma verif_lemma_be_put32
+//@   property C06 C03
+//@   requires len(b) >= 4
+//@   inline_call PutUint32
+//@ lemma verif_lemma_be_put64
+//@   property C06 C03
+//@   requires len(b) >= 8
+//@   inline_call PutUint64
+
+// ---- grace-period prune (C05): files are unlinked only under the manifest lock, after the manifest was seen
+// unchanged under that lock, and never when the keep set names them
+
+//@ extern funcvalue:lock as verif_x_lockKeepers
+//@   modifies nothing
+//@   ghost_set verif_ghost.pLockHeld = (err == nil)
+//@ extern funcvalue:release as verif_x_release
+//@   modifies nothing
+//@   ghost_set verif_ghost.pLockHeld = false
+
+//@ func manifestMtimeChanged
+//@   property C05
+//@   trusted ghost marker only: remembers that the manifest was seen unchanged
+//@   modifies nothing
+//@   ghost_set verif_ghost.pMtimeUnchanged = (result1 == nil && !result0)
+
+//@ extern (github.com/dolthub/dolt/go/store/hash.HashSet).Has as verif_x_HashSet_Has
+//@   modifies nothing
+//@   ghost_set verif_ghost.pKeepHas = has
+
+//@ extern github.com/dolthub/dolt/go/libraries/utils/file.Remove as verif_x_file_Remove
+//@   modifies nothing
+
+//@ func unlinkCandidates
+//@   property C05
+//@   requires verif_ghost.pLockHeld && verif_ghost.pMtimeUnchanged
+//@   at call github.com/dolthub/dolt/go/libraries/utils/file.Remove: assert c.isTemp || !verif_ghost.pKeepHas
+//@   ensures  verif_ghost.pLockHeld
+
+//@ func unlinkUnderManifestLock
+//@   property C05
+//@   requires !verif_ghost.pLockHeld && !verif_ghost.pMtimeUnchanged
+//@   ensures  !verif_ghost.pLockHeld
+
+// the keep set handed to the pruner includes what the manifest names at the moment the lock was taken
+//@ extern (github.com/dolthub/dolt/go/store/nbs.manifestLocker).LockManifest as verif_x_LockManifest
+//@   modifies nothing
+//@   ghost_set verif_ghost.pLockedExists = lm.exists
+//@ func addSpecsAndAppendix
+//@   property C05
+//@   trusted ghost marker only
+//@   ghost_set verif_ghost.pKeepFromLocked = true
+//@ func (*NomsBlockStore).PruneUnreferencedWithGrace$1
+//@   property C05
+//@   requires !verif_ghost.pKeepFromLocked
+//@   ensures  result2 == nil && verif_ghost.pLockedExists ==> verif_ghost.pKeepFromLocked
